@@ -7,7 +7,7 @@ import torch.nn as nn
 from qv import fp, gen
 
 MODEL_KINDS = ["linear", "mlp_small", "mlp_big", "mlp_ln", "conv", "convnet", "mlp_nested", "scalar_head", "two_heads",
-               "attention"]
+               "attention", "mlp_odd"]
 
 
 class Block(nn.Module):
@@ -80,6 +80,8 @@ def build(kind, wd, rng=None):
         m, shape = nn.Sequential(Block(16), nn.Sequential(Block(16), nn.Linear(16, 4))), (3, 16)
     elif kind == "attention":
         m, shape = Attention(16), (2, 5, 16)
+    elif kind == "mlp_odd":  # row counts that leave every remainder modulo the packing factors (10, 7, 3 rows)
+        m, shape = nn.Sequential(nn.Linear(48, 10), nn.ReLU(), nn.Linear(10, 7), nn.Tanh(), nn.Linear(7, 3)), (3, 48)
     else:
         raise KeyError(kind)
     return m.to(wd).eval(), shape
@@ -102,7 +104,7 @@ def crash_hazard(kind, wd, wq, aq):
     """True when a Linear of this model falls into a known native crash class (C07-F33/F34)."""
     feats = {"linear": [24], "mlp_small": [16, 32], "mlp_big": [160, 256], "mlp_ln": [32, 32], "conv": [],
              "convnet": [64], "mlp_nested": [16, 16, 16], "scalar_head": [16, 16], "two_heads": [16, 16, 16],
-             "attention": [16, 16, 16, 16]}[kind]
+             "attention": [16, 16, 16, 16], "mlp_odd": [48, 10, 7]}[kind]
     return any(gen.int8pack_crash_class(wd, wq, f, quantized_activations=aq is not None) for f in feats)
 
 
